@@ -1,8 +1,126 @@
-import GraafVerif.Driver.Common
-/-! Driver handlers for property C12 (ops the harness module `ops/c12.rs` emits). -/
-namespace GraafVerif.Driver.H12
-open GraafVerif GraafVerif.Driver
+import GraafVerif.Driver.H02
+import GraafVerif.Model.Pred
+import GraafVerif.Spec.Pred
+/-!
+Driver handlers for property C12 (ops of `harness/src/ops/c12.rs`): `pred_unary`, `pred_rel`.
 
-def handlers : List (String × Handler) := []
+Correspondence: the model of the named representation (`Model/Pred.lean`; the threaded
+`AdjacencyList::is_semicomplete` with the observed thread count `t`, and additionally its
+labelled-transition model under a round-robin and a reversed schedule).  Oracle: the
+definitions of `Spec/Pred.lean` evaluated on the implementation's own `vertices()`/`arcs()`.
+-/
+namespace GraafVerif.Driver.H12
+open GraafVerif GraafVerif.Driver GraafVerif.Repr GraafVerif.Query GraafVerif.Pred
+open GraafVerif.Driver.H02 (panicV oBool parseObs Obs firstDiff short commonTags)
+
+/-- Unary predicate outputs of the model, in protocol order (without obs / unchanged). -/
+structure Inst where
+  core : Core
+  obs : V
+  isComplete : Option Bool
+  isSemicomplete : Option Bool
+  isTournament : Option Bool
+  isSimple : Option Bool
+
+/-- Two fixed schedules for the LTS cross-check: round robin, and workers in reverse order one
+after the other (each worker needs at most `(rows + 1) * (order + 2)` steps). -/
+def schedRoundRobin (workers order : Nat) : List Nat :=
+  (List.range ((order + 2) * (order + 2))).flatMap (fun _ => List.range workers)
+def schedReverse (workers order : Nat) : List Nat :=
+  (List.range workers).reverse.flatMap (fun k => List.replicate ((order + 2) * (order + 2)) k)
+
+def mkInst (t : Nat) (d : GDesc) : Option Inst :=
+  match d.repr with
+  | "al" => (buildAL d).map fun g =>
+    let f := Pred.AL.isSemicomplete g t
+    -- the labelled-transition model must agree under both schedules (small orders only: cost)
+    let lts :=
+      if g.order ≤ 12 then
+        let k := (Par.ranges g.order t).length
+        Pred.AL.isSemicompleteSched g t (schedRoundRobin k g.order) == some f &&
+        Pred.AL.isSemicompleteSched g t (schedReverse k g.order) == some f
+      else true
+    ⟨Query.AL.core g, obsAL g, some (Pred.AL.isComplete g), if lts then some f else none,
+     some (Pred.AL.isTournament g), some (Pred.AL.isSimple g)⟩
+  | "am" => (buildAM d).map fun g =>
+    ⟨Query.AM.core g, obsAM g, some (Pred.AM.isComplete g), some (Pred.AM.isSemicomplete g),
+     some (Pred.AM.isTournament g), some (Pred.AM.isSimple g)⟩
+  | "mx" => (buildMX d).map fun g =>
+    ⟨Query.MX.core g, obsMX g, Pred.MX.isComplete g, some (Pred.MX.isSemicomplete g),
+     some (Pred.MX.isTournament g), some (Pred.MX.isSimple g)⟩
+  | "el" => (buildEL d).map fun g =>
+    ⟨Query.EL.core g, obsEL g, Pred.EL.isComplete g, some (Pred.EL.isSemicomplete g),
+     some (Pred.EL.isTournament g), some (Pred.EL.isSimple g)⟩
+  | "wu" | "wi" => (buildW d).map fun g =>
+    ⟨Query.WL.core g, obsWL g, some (Pred.WL.isComplete g), some (Pred.WL.isSemicomplete g),
+     some (Pred.WL.isTournament g), some (Pred.WL.isSimple g)⟩
+  | _ => none
+
+def unaryNames : List String :=
+  ["obs", "is_complete", "is_semicomplete", "is_tournament", "is_regular", "is_balanced", "is_symmetric",
+   "is_oriented", "is_simple", "unchanged"]
+
+def tf (name : String) (v : V) : String := s!"{name}={if v == V.ofBool true then "T" else if v == V.ofBool false then "F" else "P"}"
+
+def hUnary : Handler := fun t args observed =>
+  match args, observed with
+  | [dv], obsV :: _ => do
+    let d ← GDesc.parse dv
+    let ob ← parseObs obsV
+    let G := ob.G
+    let want : List V :=
+      [obsV, V.ofBool (DefB.isComplete G), V.ofBool (DefB.isSemicomplete G), V.ofBool (DefB.isTournament G),
+       V.ofBool (DefB.isRegular G), V.ofBool (DefB.isBalanced G), V.ofBool (DefB.isSymmetric G),
+       V.ofBool (DefB.isOriented G), V.ofBool true, V.ofBool true]
+    let model : List V :=
+      match mkInst t d with
+      | none => [panicV]
+      | some m =>
+        [m.obs, oBool m.isComplete, oBool m.isSemicomplete, oBool m.isTournament, oBool (Blanket.isRegular m.core),
+         oBool (Blanket.isBalanced m.core), V.ofBool (Blanket.isSymmetric m.core), V.ofBool (Blanket.isOriented m.core),
+         oBool m.isSimple, V.ofBool true]
+    let propFail : Option String :=
+      match firstDiff observed want with
+      | none => none
+      | some (i, o, w) => some s!"{unaryNames[i]?.getD "?"}: implementation {short o} definition-on-own-arcs {short w}"
+    let n := ob.nverts
+    -- shortcut-relevant shapes: exactly n(n-1)/2 arcs but not a tournament, at least that many but not semicomplete
+    let half := n * (n - 1) / 2
+    let shape :=
+      if ob.narcs == half && !DefB.isTournament G then ["size=half-not-tournament"]
+      else if ob.narcs ≥ half && !DefB.isSemicomplete G then ["size>=half-not-semicomplete"] else []
+    let tags := commonTags d ob ++ shape ++ [s!"threads={min t 17}"] ++
+      ((unaryNames.zip observed).filter (fun p => p.1 != "obs" && p.1 != "unchanged" && p.1 != "is_simple")).map (fun p => tf p.1 p.2)
+    pure (classify observed model propFail (nt := n ≥ 2 && ob.narcs ≥ 1) tags)
+  | _, _ => none
+
+def hRel : Handler := fun t args observed =>
+  match args, observed with
+  | [hv, dv], [obsH, obsD, _, _, _] => do
+    let hd ← GDesc.parse hv
+    let dd ← GDesc.parse dv
+    let oh ← parseObs obsH
+    let od ← parseObs obsD
+    let want : List V :=
+      [obsH, obsD, V.ofBool (DefB.isSubdigraph oh.G od.G), V.ofBool (DefB.isSubdigraph od.G oh.G),
+       V.ofBool (DefB.isSpanningSubdigraph oh.G od.G)]
+    let model : List V :=
+      match mkInst t hd, mkInst t dd with
+      | some h, some d =>
+        [h.obs, d.obs, V.ofBool (Blanket.isSubdigraph h.core d.core), V.ofBool (Blanket.isSuperdigraph h.core d.core),
+         V.ofBool (Blanket.isSpanningSubdigraph h.core d.core)]
+      | _, _ => [panicV]
+    let names := ["obsH", "obsD", "is_subdigraph", "is_superdigraph", "is_spanning_subdigraph"]
+    let propFail : Option String :=
+      match firstDiff observed want with
+      | none => none
+      | some (i, o, w) => some s!"{names[i]?.getD "?"}: implementation {short o} definition-on-own-arcs {short w}"
+    let tags := [s!"repr={hd.repr}", sizeTag (max hd.order dd.order),
+                 if oh.G.verts == od.G.verts then "same-V" else if oh.nverts == od.nverts then "same-order-diff-V" else "diff-order"] ++
+      ((names.zip observed).drop 2).map (fun p => tf p.1 p.2)
+    pure (classify observed model propFail (nt := oh.narcs + od.narcs ≥ 1) tags)
+  | _, _ => none
+
+def handlers : List (String × Handler) := [("pred_unary", hUnary), ("pred_rel", hRel)]
 
 end GraafVerif.Driver.H12
